@@ -30,6 +30,20 @@ var _ = big.NewInt
 
 func cutItem(b []byte, tag int, ty byte, n int) {}
 
+//@ lemma cutBytes
+//@   requires len(b) >= 8+len(v) && bytes_eq(b[8:8+len(v)], v)
+//@   ensures len(b) >= 8+len(v) && bytes_eq(b[8:8+len(v)], v)
+//@   pure
+
+func cutBytes(b []byte, v []byte) {}
+
+//@ lemma cutText
+//@   requires len(b) >= 8+len(v) && bytes_eq(b[8:8+len(v)], v)
+//@   ensures len(b) >= 8+len(v) && bytes_eq(b[8:8+len(v)], v)
+//@   pure
+
+func cutText(b []byte, v string) {}
+
 //@ lemma cutTail
 //@   requires 0 <= o && o <= len(b) && len(b)-o == len(rest) && bytes_eq(b[o:], rest) && hdOK(rest)
 //@   ensures hdOK(b[o:]) && bytes_eq(b[o:], rest)
@@ -47,23 +61,27 @@ func cutTail(b []byte, o int, rest []byte) {}
 
 func lemmaWholeSeconds(v int64) {}
 
+// The reader is left exactly at the bytes that followed: `out` is the suffix wb[o:] of the written buffer
+// (same array, offset and length) and that suffix holds the bytes of `rest`.
+//
 //@ lemma lemmaRTInteger
 //@   requires 0 <= tag && tag < 1<<24 && hdOK(rest)
-//@   ensures err == nil && x == v && len(out) == len(rest) && bytes_eq(out, rest)
+//@   ensures err == nil && x == v && len(out) == len(rest)
+//@   ensures 0 <= o && o <= len(wb) && arr(out) == arr(wb) && off(out) == off(wb)+o && len(out) == len(wb)-o && bytes_eq(wb[o:], rest)
 
-func lemmaRTInteger(tag int, v int32, rest []byte) (x int32, err error, out []byte) {
+func lemmaRTInteger(tag int, v int32, rest []byte) (x int32, err error, out, wb []byte, o int) {
 	w := &ttlvWriter{}
 	w.Integer(tag, v)
-	o := len(w.buf)
+	o = len(w.buf)
 	w.buf = append(w.buf, rest...)
 	cutItem(w.buf, tag, 2, 4)
 	cutTail(w.buf, o, rest)
 	dec, err := newTTLVReader(w.buf)
 	if err != nil {
-		return 0, err, nil
+		return 0, err, nil, w.buf, o
 	}
 	x, err = dec.Integer(tag)
-	return x, err, dec.buf
+	return x, err, dec.buf, w.buf, o
 }
 
 //@ lemma lemmaWRWInteger
@@ -94,23 +112,27 @@ func lemmaWRWInteger(tag int, in []byte) (v1, v2 int32, err1, err2 error, w1, w2
 	return v1, v2, nil, nil, a.buf, b.buf
 }
 
+// The reader is left exactly at the bytes that followed: `out` is the suffix wb[o:] of the written buffer
+// (same array, offset and length) and that suffix holds the bytes of `rest`.
+//
 //@ lemma lemmaRTLongInteger
 //@   requires 0 <= tag && tag < 1<<24 && hdOK(rest)
-//@   ensures err == nil && x == v && len(out) == len(rest) && bytes_eq(out, rest)
+//@   ensures err == nil && x == v && len(out) == len(rest)
+//@   ensures 0 <= o && o <= len(wb) && arr(out) == arr(wb) && off(out) == off(wb)+o && len(out) == len(wb)-o && bytes_eq(wb[o:], rest)
 
-func lemmaRTLongInteger(tag int, v int64, rest []byte) (x int64, err error, out []byte) {
+func lemmaRTLongInteger(tag int, v int64, rest []byte) (x int64, err error, out, wb []byte, o int) {
 	w := &ttlvWriter{}
 	w.LongInteger(tag, v)
-	o := len(w.buf)
+	o = len(w.buf)
 	w.buf = append(w.buf, rest...)
 	cutItem(w.buf, tag, 3, 8)
 	cutTail(w.buf, o, rest)
 	dec, err := newTTLVReader(w.buf)
 	if err != nil {
-		return 0, err, nil
+		return 0, err, nil, w.buf, o
 	}
 	x, err = dec.LongInteger(tag)
-	return x, err, dec.buf
+	return x, err, dec.buf, w.buf, o
 }
 
 //@ lemma lemmaWRWLongInteger
@@ -141,23 +163,27 @@ func lemmaWRWLongInteger(tag int, in []byte) (v1, v2 int64, err1, err2 error, w1
 	return v1, v2, nil, nil, a.buf, b.buf
 }
 
+// The reader is left exactly at the bytes that followed: `out` is the suffix wb[o:] of the written buffer
+// (same array, offset and length) and that suffix holds the bytes of `rest`.
+//
 //@ lemma lemmaRTEnum
 //@   requires 0 <= tag && tag < 1<<24 && hdOK(rest)
-//@   ensures err == nil && x == v && len(out) == len(rest) && bytes_eq(out, rest)
+//@   ensures err == nil && x == v && len(out) == len(rest)
+//@   ensures 0 <= o && o <= len(wb) && arr(out) == arr(wb) && off(out) == off(wb)+o && len(out) == len(wb)-o && bytes_eq(wb[o:], rest)
 
-func lemmaRTEnum(tag int, v uint32, rest []byte) (x uint32, err error, out []byte) {
+func lemmaRTEnum(tag int, v uint32, rest []byte) (x uint32, err error, out, wb []byte, o int) {
 	w := &ttlvWriter{}
 	w.Enum(0, tag, v)
-	o := len(w.buf)
+	o = len(w.buf)
 	w.buf = append(w.buf, rest...)
 	cutItem(w.buf, tag, 5, 4)
 	cutTail(w.buf, o, rest)
 	dec, err := newTTLVReader(w.buf)
 	if err != nil {
-		return 0, err, nil
+		return 0, err, nil, w.buf, o
 	}
 	x, err = dec.Enum(0, tag)
-	return x, err, dec.buf
+	return x, err, dec.buf, w.buf, o
 }
 
 //@ lemma lemmaWRWEnum
@@ -188,23 +214,27 @@ func lemmaWRWEnum(tag int, in []byte) (v1, v2 uint32, err1, err2 error, w1, w2 [
 	return v1, v2, nil, nil, a.buf, b.buf
 }
 
+// The reader is left exactly at the bytes that followed: `out` is the suffix wb[o:] of the written buffer
+// (same array, offset and length) and that suffix holds the bytes of `rest`.
+//
 //@ lemma lemmaRTBool
 //@   requires 0 <= tag && tag < 1<<24 && hdOK(rest)
-//@   ensures err == nil && x == v && len(out) == len(rest) && bytes_eq(out, rest)
+//@   ensures err == nil && x == v && len(out) == len(rest)
+//@   ensures 0 <= o && o <= len(wb) && arr(out) == arr(wb) && off(out) == off(wb)+o && len(out) == len(wb)-o && bytes_eq(wb[o:], rest)
 
-func lemmaRTBool(tag int, v bool, rest []byte) (x bool, err error, out []byte) {
+func lemmaRTBool(tag int, v bool, rest []byte) (x bool, err error, out, wb []byte, o int) {
 	w := &ttlvWriter{}
 	w.Bool(tag, v)
-	o := len(w.buf)
+	o = len(w.buf)
 	w.buf = append(w.buf, rest...)
 	cutItem(w.buf, tag, 6, 8)
 	cutTail(w.buf, o, rest)
 	dec, err := newTTLVReader(w.buf)
 	if err != nil {
-		return false, err, nil
+		return false, err, nil, w.buf, o
 	}
 	x, err = dec.Bool(tag)
-	return x, err, dec.buf
+	return x, err, dec.buf, w.buf, o
 }
 
 //@ lemma lemmaWRWBool
@@ -235,23 +265,27 @@ func lemmaWRWBool(tag int, in []byte) (v1, v2 bool, err1, err2 error, w1, w2 []b
 	return v1, v2, nil, nil, a.buf, b.buf
 }
 
+// The reader is left exactly at the bytes that followed: `out` is the suffix wb[o:] of the written buffer
+// (same array, offset and length) and that suffix holds the bytes of `rest`.
+//
 //@ lemma lemmaRTBitmask
 //@   requires 0 <= tag && tag < 1<<24 && hdOK(rest)
-//@   ensures err == nil && x == v && len(out) == len(rest) && bytes_eq(out, rest)
+//@   ensures err == nil && x == v && len(out) == len(rest)
+//@   ensures 0 <= o && o <= len(wb) && arr(out) == arr(wb) && off(out) == off(wb)+o && len(out) == len(wb)-o && bytes_eq(wb[o:], rest)
 
-func lemmaRTBitmask(tag int, v int32, rest []byte) (x int32, err error, out []byte) {
+func lemmaRTBitmask(tag int, v int32, rest []byte) (x int32, err error, out, wb []byte, o int) {
 	w := &ttlvWriter{}
 	w.Bitmask(0, tag, v)
-	o := len(w.buf)
+	o = len(w.buf)
 	w.buf = append(w.buf, rest...)
 	cutItem(w.buf, tag, 2, 4)
 	cutTail(w.buf, o, rest)
 	dec, err := newTTLVReader(w.buf)
 	if err != nil {
-		return 0, err, nil
+		return 0, err, nil, w.buf, o
 	}
 	x, err = dec.Bitmask(0, tag)
-	return x, err, dec.buf
+	return x, err, dec.buf, w.buf, o
 }
 
 //@ lemma lemmaWRWBitmask
@@ -282,23 +316,27 @@ func lemmaWRWBitmask(tag int, in []byte) (v1, v2 int32, err1, err2 error, w1, w2
 	return v1, v2, nil, nil, a.buf, b.buf
 }
 
+// The reader is left exactly at the bytes that followed: `out` is the suffix wb[o:] of the written buffer
+// (same array, offset and length) and that suffix holds the bytes of `rest`.
+//
 //@ lemma lemmaRTDateTime
 //@   requires 0 <= tag && tag < 1<<24 && hdOK(rest)
-//@   ensures err == nil && unix(x) == unix(v) && len(out) == len(rest) && bytes_eq(out, rest)
+//@   ensures err == nil && unix(x) == unix(v) && len(out) == len(rest)
+//@   ensures 0 <= o && o <= len(wb) && arr(out) == arr(wb) && off(out) == off(wb)+o && len(out) == len(wb)-o && bytes_eq(wb[o:], rest)
 
-func lemmaRTDateTime(tag int, v time.Time, rest []byte) (x time.Time, err error, out []byte) {
+func lemmaRTDateTime(tag int, v time.Time, rest []byte) (x time.Time, err error, out, wb []byte, o int) {
 	w := &ttlvWriter{}
 	w.DateTime(tag, v)
-	o := len(w.buf)
+	o = len(w.buf)
 	w.buf = append(w.buf, rest...)
 	cutItem(w.buf, tag, 9, 8)
 	cutTail(w.buf, o, rest)
 	dec, err := newTTLVReader(w.buf)
 	if err != nil {
-		return time.Time{}, err, nil
+		return time.Time{}, err, nil, w.buf, o
 	}
 	x, err = dec.DateTime(tag)
-	return x, err, dec.buf
+	return x, err, dec.buf, w.buf, o
 }
 
 //@ lemma lemmaWRWDateTime
@@ -329,24 +367,28 @@ func lemmaWRWDateTime(tag int, in []byte) (v1, v2 time.Time, err1, err2 error, w
 	return v1, v2, nil, nil, a.buf, b.buf
 }
 
+// The reader is left exactly at the bytes that followed: `out` is the suffix wb[o:] of the written buffer
+// (same array, offset and length) and that suffix holds the bytes of `rest`.
+//
 //@ lemma lemmaRTInterval
 //@   requires 0 <= tag && tag < 1<<24 && hdOK(rest) && 0 <= v && int64(v)%1000000000 == 0 && int64(v)/1000000000 < 1<<32
-//@   ensures err == nil && x == v && len(out) == len(rest) && bytes_eq(out, rest)
+//@   ensures err == nil && x == v && len(out) == len(rest)
+//@   ensures 0 <= o && o <= len(wb) && arr(out) == arr(wb) && off(out) == off(wb)+o && len(out) == len(wb)-o && bytes_eq(wb[o:], rest)
 
-func lemmaRTInterval(tag int, v time.Duration, rest []byte) (x time.Duration, err error, out []byte) {
+func lemmaRTInterval(tag int, v time.Duration, rest []byte) (x time.Duration, err error, out, wb []byte, o int) {
 	lemmaWholeSeconds(int64(v))
 	w := &ttlvWriter{}
 	w.Interval(tag, v)
-	o := len(w.buf)
+	o = len(w.buf)
 	w.buf = append(w.buf, rest...)
 	cutItem(w.buf, tag, 10, 4)
 	cutTail(w.buf, o, rest)
 	dec, err := newTTLVReader(w.buf)
 	if err != nil {
-		return 0, err, nil
+		return 0, err, nil, w.buf, o
 	}
 	x, err = dec.Interval(tag)
-	return x, err, dec.buf
+	return x, err, dec.buf, w.buf, o
 }
 
 //@ lemma lemmaWRWInterval
@@ -377,23 +419,30 @@ func lemmaWRWInterval(tag int, in []byte) (v1, v2 time.Duration, err1, err2 erro
 	return v1, v2, nil, nil, a.buf, b.buf
 }
 
+// The value read is byte for byte the value extent wb[8:8+len(v)] of the written buffer, which holds the
+// bytes of v (stated as two equalities; together: x equals v).
+// The reader is left exactly at the bytes that followed: `out` is the suffix wb[o:] of the written buffer
+// (same array, offset and length) and that suffix holds the bytes of `rest`.
+//
 //@ lemma lemmaRTTextString
 //@   requires 0 <= tag && tag < 1<<24 && hdOK(rest) && len(v) < 1<<31
-//@   ensures err == nil && bytes_eq(x, v) && len(out) == len(rest) && bytes_eq(out, rest)
+//@   ensures err == nil && len(x) == len(v) && bytes_eq(x, wb[8:8+len(v)]) && bytes_eq(wb[8:8+len(v)], v) && len(out) == len(rest)
+//@   ensures 0 <= o && o <= len(wb) && arr(out) == arr(wb) && off(out) == off(wb)+o && len(out) == len(wb)-o && bytes_eq(wb[o:], rest)
 
-func lemmaRTTextString(tag int, v string, rest []byte) (x string, err error, out []byte) {
+func lemmaRTTextString(tag int, v string, rest []byte) (x string, err error, out, wb []byte, o int) {
 	w := &ttlvWriter{}
 	w.TextString(tag, v)
-	o := len(w.buf)
+	o = len(w.buf)
 	w.buf = append(w.buf, rest...)
 	cutItem(w.buf, tag, 7, len(v))
+	cutText(w.buf, v)
 	cutTail(w.buf, o, rest)
 	dec, err := newTTLVReader(w.buf)
 	if err != nil {
-		return "", err, nil
+		return "", err, nil, w.buf, o
 	}
 	x, err = dec.TextString(tag)
-	return x, err, dec.buf
+	return x, err, dec.buf, w.buf, o
 }
 
 //@ lemma lemmaWRWTextString
@@ -424,23 +473,30 @@ func lemmaWRWTextString(tag int, in []byte) (v1, v2 string, err1, err2 error, w1
 	return v1, v2, nil, nil, a.buf, b.buf
 }
 
+// The value read is byte for byte the value extent wb[8:8+len(v)] of the written buffer, which holds the
+// bytes of v (stated as two equalities; together: x equals v).
+// The reader is left exactly at the bytes that followed: `out` is the suffix wb[o:] of the written buffer
+// (same array, offset and length) and that suffix holds the bytes of `rest`.
+//
 //@ lemma lemmaRTByteString
 //@   requires 0 <= tag && tag < 1<<24 && hdOK(rest) && len(v) < 1<<31
-//@   ensures err == nil && bytes_eq(x, v) && len(out) == len(rest) && bytes_eq(out, rest)
+//@   ensures err == nil && len(x) == len(v) && bytes_eq(x, wb[8:8+len(v)]) && bytes_eq(wb[8:8+len(v)], v) && len(out) == len(rest)
+//@   ensures 0 <= o && o <= len(wb) && arr(out) == arr(wb) && off(out) == off(wb)+o && len(out) == len(wb)-o && bytes_eq(wb[o:], rest)
 
-func lemmaRTByteString(tag int, v []byte, rest []byte) (x []byte, err error, out []byte) {
+func lemmaRTByteString(tag int, v []byte, rest []byte) (x []byte, err error, out, wb []byte, o int) {
 	w := &ttlvWriter{}
 	w.ByteString(tag, v)
-	o := len(w.buf)
+	o = len(w.buf)
 	w.buf = append(w.buf, rest...)
 	cutItem(w.buf, tag, 8, len(v))
+	cutBytes(w.buf, v)
 	cutTail(w.buf, o, rest)
 	dec, err := newTTLVReader(w.buf)
 	if err != nil {
-		return nil, err, nil
+		return nil, err, nil, w.buf, o
 	}
 	x, err = dec.ByteString(tag)
-	return x, err, dec.buf
+	return x, err, dec.buf, w.buf, o
 }
 
 //@ lemma lemmaWRWByteString
